@@ -20,12 +20,12 @@ CONSTANTS MaxObs
 L0 == [obs |-> 0, rcache |-> 0, bwRecv |-> 0, bwSend |-> 0]
 Kinds == {"plainOK", "plainSepCon", "plainBadToken", "plainCtxWrite", "plainCancel", "plainExpire", "plainRst", "dupToken",
           "bwUpOK", "bwUpCancel", "bwUpRefused", "bwDownOK", "bwDownAbandon",
-          "obsOK", "obsCancel", "obsCancelRefused", "obsCancelGiveUp", "obsFail", "obsSilentCancel", "obsAckedCancel",
+          "obsOK", "obsCancel", "obsCancelRefused", "obsCancelGiveUp", "obsFail", "obsSilentCancel", "obsAckedCancel", "obsNotifyEtag",
           "pingOK", "pingCancel", "pingForget", "oneWay",
-          "srvReq", "srvReqNon", "srvReqNoResp", "srvReqHijack", "srvBwUpAbandon", "srvBwDownAbandon", "srvBwDownRetry",
+          "srvReq", "srvReqNon", "srvReqNoResp", "srvReqHijack", "srvBwUpAbandon", "srvBwDownAbandon", "srvBwDownRetry", "srvBwDownBadCont",
           "tickEarly", "tickBw", "tickLate"}
 Enabled(s, k) == CASE k = "obsOK" -> s.obs < MaxObs
-                   [] k \in {"obsCancel", "obsCancelRefused", "obsCancelGiveUp"} -> s.obs > 0
+                   [] k \in {"obsCancel", "obsCancelRefused", "obsCancelGiveUp", "obsNotifyEtag"} -> s.obs > 0
                    [] OTHER -> TRUE
 Step(s, k) ==
   CASE k = "obsOK" -> [s EXCEPT !.obs = s.obs + 1]
@@ -38,6 +38,8 @@ Step(s, k) ==
     [] k = "srvBwUpAbandon" -> [s EXCEPT !.bwRecv = s.bwRecv + 1, !.rcache = s.rcache + 1]
     [] k = "srvBwDownAbandon" -> [s EXCEPT !.bwSend = s.bwSend + 1, !.rcache = s.rcache + 1]
     \* (the same request twice with one token, the transfer abandoned: one held response, two remembered replies)
+    \* (a continuation that cannot be served ends the transfer by error: the held response is dropped at once; two replies remembered)
+    [] k = "srvBwDownBadCont" -> [s EXCEPT !.rcache = s.rcache + 2]
     [] k = "srvBwDownRetry" -> [s EXCEPT !.bwSend = s.bwSend + 1, !.rcache = s.rcache + 2]
     \* (the driver lets a request run out of retransmissions by sweeping up to 9 s ahead, past the transfer timeout)
     [] k \in {"tickBw", "plainExpire"} -> [s EXCEPT !.bwRecv = 0, !.bwSend = 0]
